@@ -283,8 +283,11 @@ func genC10Observe(r *rand.Rand, n int, tier string) []string {
 			for j := m - 2; j >= 0; j-- {
 				body = gApp(",", gs[j], body)
 			}
-			if r.Intn(20) == 0 {
+			if r.Intn(8) == 0 {
 				body = gApp(";", body, g.safeGoal())
+				if r.Intn(2) == 0 {
+					body = gApp(";", g.safeGoal(), body)
+				}
 			}
 			clause = gApp(":-", head, body)
 		}
@@ -509,8 +512,36 @@ func runC10Observe(payload string) string {
 		}
 		return fmt.Sprintf("clause=[%s] call=[%s] call2=[%s] retract=[%s] left=%d%s", strings.Join(cls, " , "), strings.Join(ans, " , "), strings.Join(ans2, " , "), strings.Join(ret, " , "), len(left), es)
 	}
+	// the same clause added with asserta/1 (predicate p3): calling it must answer as after assertz/1 (a
+	// clause term is stored as a block, its alternatives in source order, wherever the block goes)
+	var ansA []string
+	{
+		vb := &builder{i: i, vars: map[int]engine.Variable{}, recipe: recipe, reps: map[string]bool{}, pre: &[]engine.Term{}, lvars: &[]engine.Variable{}}
+		t3 := renameHead(vb.build(gcl), "p3")
+		g3 := engine.Term(compound("asserta", t3))
+		if strings.TrimSpace(bindS) != "" {
+			for _, bs := range strings.Split(bindS, " & ") {
+				kv := strings.SplitN(bs, "=", 2)
+				var v int
+				fmt.Sscanf(kv[0], "%d", &v)
+				g3 = compound(",", compound("=", vb.variable(v), vb.build(parseGT(kv[1]))), g3)
+			}
+		}
+		for k := len(*vb.pre) - 1; k >= 0; k-- {
+			g3 = compound(",", (*vb.pre)[k], g3)
+		}
+		_ = i.Exec(fmt.Sprintf(":- dynamic(p3/%d).", arity))
+		if _, err := solve(&i.VM, g3, 1, 5*time.Second, func(*engine.Env) bool { return false }); err == nil {
+			as5 := args()
+			ansA, _ = solveAll(&i.VM, mk("p3", as5), mk("p", as5), 20)
+		} else {
+			ansA = []string{"asserta-" + errWire(err)}
+		}
+	}
 	a := observe("p")
+	a += fmt.Sprintf(" calla=[%s]", strings.Join(ansA, " , "))
 	bb := observe("p2")
+	bb += fmt.Sprintf(" calla=[%s]", strings.Join(ansA, " , "))
 	nt := 0
 	if strings.Contains(cl, "C2::-") && (strings.TrimSpace(bindS) != "" || strings.Count(cl, "V0") > 1) {
 		nt = 1
